@@ -134,7 +134,7 @@ func genOpt(rt *rapid.T) optSet {
 // ---------------------------------------------------------------- zones
 
 var (
-	fixedZones    = []string{"UTC", "Etc/GMT+5", "Etc/GMT-14", "Etc/GMT+12", "Asia/Kathmandu", "Asia/Kolkata", "Asia/Tokyo"}
+	fixedZones    = []string{"UTC", "Etc/GMT+5", "Etc/GMT-14", "Etc/GMT+12", "Asia/Kathmandu", "Asia/Kolkata", "Asia/Tokyo", "Africa/Monrovia", "Europe/Amsterdam"}
 	ordinaryZones = []string{"America/New_York", "Europe/London", "Europe/Berlin", "Australia/Sydney", "America/Los_Angeles",
 		"Pacific/Auckland", "Europe/Lisbon", "Europe/Dublin", "America/Chicago", "Europe/Moscow", "Africa/Casablanca"}
 	unusualZones = []string{"Australia/Lord_Howe", "America/St_Johns", "Pacific/Apia", "America/Asuncion", "America/Havana",
@@ -419,7 +419,7 @@ func unixOf(y int, m time.Month, d int, loc *time.Location) int64 {
 func genInstant(rt *rapid.T, z *zoneInfo) instant {
 	var sec int64
 	class := ""
-	k := rapid.IntRange(0, 11).Draw(rt, "instantKind")
+	k := rapid.IntRange(0, 12).Draw(rt, "instantKind")
 	if k >= 2 && k <= 6 && len(z.trans) == 0 {
 		k = 0
 	}
@@ -459,6 +459,12 @@ func genInstant(rt *rapid.T, z *zoneInfo) instant {
 		class = "year-end"
 		y := rapid.IntRange(1990, 2035).Draw(rt, "year")
 		sec = unixOf(y+1, 1, 1, z.loc) + rapid.Int64Range(-2*86400, 86400).Draw(rt, "delta")
+	case k == 12:
+		// Before standard time every zone runs on local mean time, whose UTC offset is not a whole number of
+		// minutes (New_York -4:56:02 until 1883, Amsterdam +0:19:32 until 1937, Monrovia -0:44:30 until 1972):
+		// wall-clock minutes and seconds are then not aligned with UTC minutes.
+		class = "historical"
+		sec = rapid.Int64Range(unixOf(1850, 1, 1, time.UTC), unixOf(1975, 1, 1, time.UTC)).Draw(rt, "unix")
 	default:
 		// 2100 is not a leap year: 29 February is 8 years apart here, which is what
 		// reaches the five-year bound for a satisfiable expression
